@@ -8,7 +8,8 @@ import props.c02 as C02
 import props.c03 as C03
 
 FILES = ["Props/C18.v"]
-FILLERS = ["the", "of course", "then,", "in 2020", "shall", "unless otherwise stated;", "and", "-", "x1 y2", "which, if any", "7", "...", "e.g.", "§ 3", "-- ;"]
+FILLERS = ["the", "of course", "then,", "in 2020", "shall", "unless otherwise stated;", "and", "-", "x1 y2", "which, if any", "7", "...", "e.g.", "§ 3", "-- ;",
+           "in either of 2 cases:", "option 1:", "note: see above", "a/b", "50% + 1", "yes!", "~ approx.", "#4", "it's"]   # punctuation of the documented symbol set (SPECIAL_SYMBOLS); no brackets
 
 
 def type_of(p):
@@ -51,7 +52,14 @@ def with_filler(parts, rng, everywhere=True):
         if p[0] == 'ncombo':
             def nt(t):
                 return ('leaf', deep(t[1])) if t[0] == 'leaf' else ('op', t[1], nt(t[2]), nt(t[3]))
-            return ('ncombo', p[1], nt(p[2]))
+            # also between the opening brace of the combination and its first member
+            return ('ncombo', p[1], nt(p[2]), rng.choice(FILLERS))
+        if p[0] == 'pairs':
+            def pt(t):
+                if t[0] == 'leaf':
+                    return ('leaf', [('fill', rng.choice(FILLERS))] + [deep(c) for c in t[1]])
+                return ('op', t[1], pt(t[2]), pt(t[3]))
+            return ('pairs', pt(p[1]))
         return p
     out = []
     for p in parts:
@@ -62,6 +70,59 @@ def with_filler(parts, rng, everywhere=True):
         out.append(deep(p))
     out.append(('fill', rng.choice(FILLERS)))
     return out
+
+
+def lead_in_combination(parts):
+    """Some braced combination of nested statements (at any depth) has unannotated text before its first member."""
+    for p in parts:
+        if p[0] == 'ncombo':
+            if len(p) > 3 and p[3]:
+                return True
+            stack = [p[2]]
+            while stack:
+                t = stack.pop()
+                if t[0] == 'leaf':
+                    if lead_in_combination(t[1][4]):
+                        return True
+                else:
+                    stack += [t[2], t[3]]
+        elif p[0] == 'nested' and lead_in_combination(p[4]):
+            return True
+        elif p[0] == 'pairs':
+            stack = [p[1]]
+            while stack:
+                t = stack.pop()
+                if t[0] == 'leaf':
+                    if lead_in_combination(t[1]):
+                        return True
+                else:
+                    stack += [t[2], t[3]]
+    return False
+
+
+def only_suffixes_differ(a, b):
+    """Two parse observations (error code, node dumps) are equal once every suffix field is blanked."""
+    if a[0] != b[0] or len(a[1]) != len(b[1]):
+        return False
+
+    def blank(n):
+        if n[0] == 'L':
+            e = n[6]
+            if isinstance(e, tuple) and e[0] == 'T':
+                e = ('T', [(f, blank(x)) for f, x in e[1]])
+            elif isinstance(e, tuple) and e[0] == 'NS':
+                e = ('NS', [blank(x) for x in e[1]])
+            return ('L', n[1], None, n[3], n[4], n[5], e, [blank(x) for x in n[7]])
+        return ('C', n[1], None, n[3], n[4], n[5], n[6], blank(n[7]), blank(n[8]))
+    try:
+        return all(blank(rnode(x)) == blank(rnode(y)) for x, y in zip(a[1], b[1]))
+    except Exception:
+        return False
+
+
+@matcher("filler_after_opening_brace_of_nested_combination")
+def _m_f27(case, k):
+    return bool(case.get("lead_in_combination"))
 
 
 def gen(tier, seed):
@@ -153,6 +214,13 @@ def run(args):
                 if obs is None or b is None:
                     continue
                 if obs != b:
+                    if "filler" in vk and lead_in_combination(vs[vi - 1][1]):
+                        # known finding F27: text between the opening brace of a combination of nested statements and its first
+                        # member (or precedence group)
+                        V.violation("invariance:filler-after-combination-brace", {"base": base_t, "variant": t, "transformation": vk, "lead_in_combination": True},
+                                    observed={"suffix_only": only_suffixes_differ(table[(ci, vi, "parse")][1], table[(ci, 0, "parse")][1])},
+                                    what="unannotated text after the opening brace of a combination of nested statements changes the parsed statement")
+                        break
                     what = {"parse": "the parsed statement", "tab": "the tabular export", "vis": "the visual export"}[mode]
                     d = None
                     if len(obs) > 1 and len(b) > 1 and isinstance(obs[1], bytes):
